@@ -349,6 +349,138 @@ Section Kept.
   Qed.
 End Kept.
 
+(* ---------------------------------------------------------------------------------------------- *)
+(* C01, single-shot "is reached by exactly one emission in its life": for ARBITRARY slot bodies, an emission that invoked a
+   single-shot connection leaves no entry under its id when it returns (normally or not) - and an id that went stale stays
+   stale for ever (C12), so no later emission can reach it. *)
+
+(* the sweep only removes entries *)
+Lemma sweep_sub p idxs : forall w i m, winv w -> get_impl w i = Some m -> i_emitting m = false ->
+  exists m', get_impl (disconnect_where p w i idxs) i = Some m' /\
+             forall k c, g_get (i_conns m') k = Some c -> g_get (i_conns m) k = Some c.
+Proof.
+  induction idxs as [|x r IH]; intros w i m Hw Hm Hem; cbn [disconnect_where]; [exists m; auto|].
+  rewrite Hm. pose proof (Hw _ _ Hm) as (Hwf & _).
+  destruct (g_indexAt (i_conns m) x) as [k|] eqn:Hix; [|exact (IH w i m Hw Hm Hem)].
+  destruct (g_get (i_conns m) k) as [c|] eqn:Hc; [|exact (IH w i m Hw Hm Hem)].
+  destruct (p c); [|exact (IH w i m Hw Hm Hem)].
+  pose proof (impl_disconnect_nonemitting w i k m c Hm Hem Hc) as Hm1.
+  destruct (impl_disconnect_ok w i k Hw) as [Hw1 _].
+  destruct (IH _ i _ Hw1 Hm1 Hem) as (m' & Hg & Hsub). exists m'. split; [exact Hg|].
+  intros k0 c0 H0. apply Hsub in H0. cbn [i_conns impl_with_conns] in H0.
+  destruct (erase_spec (i_conns m) k Hwf) as (_ & He & _). rewrite He in H0. destruct (gidx_eqb k k0); [discriminate H0|exact H0].
+Qed.
+
+Section Single.
+  Variable R : world -> nat -> res.
+  Hypothesis HR : good R.
+  Variables (i : nat) (k : gidx).
+
+  Definition single_at (w : world) : Prop := exists m c, get_impl w i = Some m /\ g_get (i_conns m) k = Some c /\ c_kind c = KSingle.
+  Definition marked_at (w : world) : Prop := exists m c, get_impl w i = Some m /\ g_get (i_conns m) k = Some c /\ c_tbd c = true.
+
+  Lemma single_at_wle (T : nat -> Prop) w w' : wle_on all all T w w' -> emitting_in w i -> single_at w -> single_at w'.
+  Proof.
+    intros L (m0 & Hm0 & He0) (m & c & Hm & Hc & Hk). assert (m0 = m) by congruence. subst m0.
+    destruct (wle_impls _ _ _ _ _ L _ _ Hm) as (m' & Hm' & _ & K). destruct (K I) as (_ & _ & _ & M).
+    destruct (M He0 k c Hc) as (c' & Hc' & Hk' & _). exists m', c'. split; [exact Hm'|]. split; [exact Hc'|congruence].
+  Qed.
+  Lemma marked_at_wle (T : nat -> Prop) w w' : wle_on all all T w w' -> emitting_in w i -> marked_at w -> marked_at w'.
+  Proof.
+    intros L (m0 & Hm0 & He0) (m & c & Hm & Hc & Ht). assert (m0 = m) by congruence. subst m0.
+    destruct (wle_impls _ _ _ _ _ L _ _ Hm) as (m' & Hm' & _ & K). destruct (K I) as (_ & _ & _ & M).
+    destruct (M He0 k c Hc) as (c' & Hc' & _ & Ht'). exists m', c'. split; [exact Hm'|]. split; [exact Hc'|auto].
+  Qed.
+
+  (* firing the single-shot connection marks it before its body runs, and the mark survives the body *)
+  Lemma fire_single_marks w c args : winv w -> emitting_in w i ->
+    (exists m, get_impl w i = Some m /\ g_get (i_conns m) k = Some c) -> c_kind c = KSingle ->
+    marked_at (fst (fire R w i k c args)).
+  Proof.
+    intros Hw He (m & Hm & Hc) Hk. unfold fire. rewrite Hk.
+    set (w1 := handle_disconnect w {| h_impl := Some i; h_id := Some k |}).
+    destruct (handle_disconnect_ok w {| h_impl := Some i; h_id := Some k |} Hw) as [Hw1 L1]. fold w1 in Hw1, L1.
+    pose proof (emitting_in_wle _ _ _ i L1 He) as He1.
+    assert (M1 : marked_at w1).
+    { destruct He as (m0 & Hm0 & Hem). assert (m0 = m) by congruence. subst m0.
+      pose proof (Hw _ _ Hm) as (Hwf & _ & _ & Hal).
+      unfold w1, handle_disconnect, checked_lock. cbn [h_id h_impl]. unfold lock. rewrite Hm, (Hal Hem), Hm, Hc.
+      unfold impl_disconnect. rewrite Hm, Hc, Hem.
+      eexists _, (conn_set_tbd c). split; [eapply get_put_same; exact Hm|]. cbn [i_conns impl_with_flags impl_with_conns].
+      destruct (update_spec (i_conns m) k (conn_set_tbd c) Hwf) as (_ & Hg & _). rewrite Hg, gidx_eqb_refl, Hc. split; reflexivity. }
+    unfold invoke_slot.
+    set (w2 := log (EvSlot (Some (i, k)) true (c_label c) args) w1).
+    assert (Hw2 : winv w2) by (unfold w2; same_impls).
+    destruct (HR w2 (c_script c) Hw2) as [_ L2].
+    apply (marked_at_wle _ w2 _ L2); [exact He1|exact M1].
+  Qed.
+
+  Lemma walk_single args : forall idxs w, winv w -> emitting_in w i -> single_at w ->
+    exists l, w_trace (fst (walk R w i args idxs)) = l ++ w_trace w /\
+              (In k (dkeys i l) -> marked_at (fst (walk R w i args idxs))).
+  Proof.
+    induction idxs as [|x r IH]; intros w Hw He Hs; cbn [walk].
+    - exists []. split; [reflexivity|intros []].
+    - pose proof Hs as (m & c & Hm & Hc & Hk). rewrite Hm. pose proof (Hw _ _ Hm) as (Hwf & _).
+      destruct (g_indexAt (i_conns m) x) as [k'|] eqn:Hix; [|exact (IH w Hw He Hs)].
+      destruct (g_get (i_conns m) k') as [c'|] eqn:Hc'; [|exact (IH w Hw He Hs)].
+      destruct (c_blocked c'); [exact (IH w Hw He Hs)|].
+      pose proof (fire_ok R HR w i k' c' args Hw) as [Hw1 L1].
+      destruct (fire_once R HR w i k' c' args Hw He) as (l1 & Hl1 & Hk1).
+      assert (M1 : In k (dkeys i l1) -> marked_at (fst (fire R w i k' c' args))).
+      { intros Hin. destruct Hk1 as [E|E]; rewrite E in Hin; [|destruct Hin]. destruct Hin as [E'|[]]. subst k'.
+        assert (c' = c) by congruence. subst c'. apply fire_single_marks; [exact Hw|exact He|exists m; auto|exact Hk]. }
+      destruct (fire R w i k' c' args) as [w1 [e|]] eqn:Hf; cbn [fst] in *.
+      + exists l1. split; [exact Hl1|exact M1].
+      + pose proof (emitting_in_wle _ _ _ i L1 He) as He1.
+        pose proof (single_at_wle _ w w1 L1 He Hs) as Hs1.
+        destruct (IH w1 Hw1 He1 Hs1) as (l2 & Hl2 & M2).
+        exists (l2 ++ l1). split; [rewrite Hl2, Hl1, app_assoc; reflexivity|].
+        rewrite dkeys_app. intros Hin. apply in_app_or in Hin. destruct Hin as [Hin|Hin]; [exact (M2 Hin)|].
+        pose proof (walk_ok R HR i args r w1 Hw1) as [_ L2].
+        apply (marked_at_wle _ w1 _ L2 He1). exact (M1 Hin).
+  Qed.
+
+  Theorem emit_single_shot_gone w s args m c m' :
+    winv w -> lookup (w_sigs w) s = Some (Some i) -> get_impl w i = Some m -> i_emitting m = false ->
+    g_get (i_conns m) k = Some c -> c_kind c = KSingle ->
+    forall l, w_trace (fst (sig_emit R w s args)) = l ++ w_trace w -> In k (dkeys i l) ->
+    get_impl (fst (sig_emit R w s args)) i = Some m' -> g_get (i_conns m') k = None.
+  Proof.
+    intros Hw Hs Hm Hem Hc Hk l Hl Hin Hm'.
+    assert (Hclean : forall c3, g_get (i_conns m') k = Some c3 -> c_tbd c3 = false).
+    { intros c3 H3. assert (Hne : forall mm, get_impl w i = Some mm -> i_emitting mm = false) by (intros mm Hmm; congruence).
+      exact (proj1 (emit_effects_complete R HR w s args i m' k c3 Hw Hs Hne Hm' H3)). }
+    revert Hl Hm'. unfold sig_emit. rewrite Hs, Hm, Hem.
+    set (m1 := impl_with_owner (impl_with_flags m true (i_dde m)) (i_owned m) true).
+    set (w1 := put_impl w i m1).
+    assert (Hw1 : winv w1) by (apply winv_put; [assumption|apply impl_ok_emit_start; eapply Hw; eassumption]).
+    assert (Hg1 : get_impl w1 i = Some m1) by (eapply get_put_same; eassumption).
+    assert (He1 : emitting_in w1 i) by (exists m1; split; [exact Hg1|reflexivity]).
+    assert (Hs1 : single_at w1) by (exists m1, c; split; [exact Hg1|split; [exact Hc|exact Hk]]).
+    destruct (walk_single args (seq 0 (g_size (i_conns m))) w1 Hw1 He1 Hs1) as (l2 & Hl2 & M2).
+    pose proof (walk_ok R HR i args (seq 0 (g_size (i_conns m))) w1 Hw1) as [Hw2 _].
+    destruct (walk R w1 i args (seq 0 (g_size (i_conns m)))) as [w2 e]. cbn [fst] in *.
+    intros Hl Hm'. rewrite trace_finish_emit, Hl2 in Hl. change (w_trace w1) with (w_trace w) in Hl. apply app_inv_tail in Hl. subst l2.
+    destruct (M2 Hin) as (m2 & c2 & Hg2 & Hc2 & Ht2).
+    destruct (g_get (i_conns m') k) as [c3|] eqn:Hc3; [|reflexivity]. exfalso.
+    pose proof (Hclean c3 eq_refl) as Ht3.
+    (* whatever survived finish_emit was there, unchanged, before it *)
+    revert Hm'. unfold finish_emit. rewrite Hg2.
+    set (w3 := put_impl w2 i (impl_with_flags m2 false (i_dde m2))).
+    assert (Hw3 : winv w3) by (apply winv_put; [assumption|apply impl_ok_emit_end; eapply Hw2; eassumption]).
+    assert (Hg3 : get_impl w3 i = Some (impl_with_flags m2 false (i_dde m2))) by (eapply get_put_same; eassumption).
+    assert (Hsub : exists m4, get_impl (if i_dde m2 then disconnect_where c_tbd w3 i (seq 0 (g_size (i_conns m))) else w3) i = Some m4 /\
+                              forall k0 c0, g_get (i_conns m4) k0 = Some c0 -> g_get (i_conns m2) k0 = Some c0).
+    { destruct (i_dde m2).
+      - destruct (sweep_sub c_tbd (seq 0 (g_size (i_conns m))) w3 i _ Hw3 Hg3 eq_refl) as (m4 & Hg4 & S4). exists m4. split; [exact Hg4|exact S4].
+      - eexists. split; [exact Hg3|auto]. }
+    destruct Hsub as (m4 & Hg4 & S4). rewrite Hg4. intros Hm'.
+    erewrite get_put_same in Hm' by exact Hg4. inversion Hm'; subst m'. cbn [i_conns impl_with_owner impl_with_flags] in Hc3.
+    apply S4 in Hc3. congruence.
+  Qed.
+End Single.
+
 (* the hypotheses of emit_exactly_once_if_kept are met by bodies that DO act on the emitting signal: every slot disconnects
    another connection k2 of it *)
 Definition disc_other (i : nat) (k2 : gidx) : world -> nat -> res := fun w _ => ok (impl_disconnect w i k2).
